@@ -168,6 +168,10 @@ def rule_block_path(ctx, prop):
                         re.search(r"as formatters::trivia::Update\w*Trivia>::", c) or
                         re.search(r"TokenReference::(symbol|new)$|Token::new$", c)) and not allowed.search(c):
                     bad.append((c, f.loc(t["sp"])))
+                elif re.search(r"^full_moon::(ast|tokenizer)::.*::(new|symbol)$|^<full_moon::.* as std::default::Default>::default$", c) \
+                        and not re.search(r"punctuated::(Punctuated|Pair)(::<T>)?::new$|ast::Block::new$", c):
+                    # a node constructor creates fresh default tokens: the original tokens (and their trivia) are lost
+                    bad.append((c, f.loc(t["sp"])))
             for b, o in [(b, o) for g, b, o in fn_refs(prog, r"^formatters::", "stylua_lib") if g is f]:
                 c = o.get("rfn") or o["fn"]
                 if not allowed.search(c):
@@ -209,6 +213,14 @@ def rule_post(ctx, prop):
         for b, si_, s in f.stmts():
             if s["k"] == "assign" and s["rv"]["k"] == "agg" and "closure" in s["rv"]:
                 closure_guard[s["rv"]["closure"]] = guarded_by_variant(f, b, "FormatNode", "Normal")
+        # should_format_node calls that ask about an input node (no formatter call in the argument's provenance)
+        raw_sfn = []
+        for b, t in f.calls():
+            if callee(t) == SFN:
+                pc = prov_calls(provenance(f, t["args"][1]))
+                if not any(re.search(r"^formatters::(stmt::format_stmt|block::format_last_stmt|.*::format_\w+)$", x) for x in pc):
+                    raw_sfn.append(b)
+        asked_formatted = False
         for g in members:
             for b, t in g.calls():
                 c = callee(t)
@@ -217,6 +229,11 @@ def rule_post(ctx, prop):
                 n += 1
                 if g is f:
                     ok = guarded_by_variant(f, b, "FormatNode", "Normal")
+                    if ok and not any(f.dominates(rb, b) for rb in raw_sfn):
+                        # the only answers available here are about *formatted* nodes, whose tokens carry no positions:
+                        # the range test cannot mean anything for them
+                        ok = False
+                        asked_formatted = True
                 else:
                     # closure: guarded where it is created (outermost enclosing closure)
                     outer = g.path
@@ -231,8 +248,10 @@ def rule_post(ctx, prop):
                 if not ok:
                     rep.violation(f"{g.key} unguarded-post-processing {c.split('::')[-1]}",
                                   f"{g.path} applies {c} to a statement without being dominated by "
-                                  f"`should_format_node(..) == Normal`: ignored / out-of-range statements lose their "
-                                  f"semicolon, spacing or comments", g.loc(t["sp"]), cfg)
+                                  f"`should_format_node(<input statement>) == Normal`"
+                                  f"{' (the only guard asks about the already formatted statement, whose tokens have no positions: with a range start every in-range statement is classified NotInRange)' if asked_formatted else ''}"
+                                  f": ignored / out-of-range statements lose their semicolon, spacing or comments, or in-range "
+                                  f"statements keep theirs", g.loc(t["sp"]), cfg)
         rep.floor("post-processing calls in format_block", n, 8, cfg)
     return rep
 
